@@ -244,6 +244,37 @@ func NewWorld(prog *load.Program, specDir string) (*World, error) {
 		w.Lemmas = append(w.Lemmas, f.Lemmas...)
 		w.Events = append(w.Events, f.Events...)
 	}
+	// footprints: named location lists, expanded where they are used
+	fps := map[string]*spec.Footprint{}
+	for _, f := range w.Files {
+		for _, fp := range f.Footprints {
+			fps[fp.Name] = fp
+		}
+	}
+	if len(fps) > 0 {
+		expand := func(pos spec.Pos, locs []spec.Expr) []spec.Expr {
+			out, err := spec.ExpandFootprints(locs, fps)
+			if err != nil {
+				w.Problems = append(w.Problems, fmt.Sprintf("%s: %v", pos, err))
+				return locs
+			}
+			return out
+		}
+		for _, f := range w.Files {
+			for _, fs := range f.Funcs {
+				fs.Modifies = expand(fs.Pos, fs.Modifies)
+				for _, mo := range fs.Monitors {
+					mo.Guards = expand(mo.Pos, mo.Guards)
+				}
+				for _, re := range fs.Reenter {
+					re.Mods = expand(re.Pos, re.Mods)
+				}
+				for _, ls := range fs.Loops {
+					ls.Modifies = expand(fs.Pos, ls.Modifies)
+				}
+			}
+		}
+	}
 	w.findImmutableGlobals()
 	w.findMutableFields()
 	w.TypesPkg("io") // build the package index before units run concurrently
